@@ -207,6 +207,24 @@ func epBatch(c *RunCtx, cfg batchCfg) *Result {
 		synctest.Wait()
 		// quiescent point with gated items: NumPending of each batch == items not finished
 		if cfg.Gated {
+			// every accepted job is gated: min(accepted, limit) of them must be executing together now
+			if cfg.Purge != 2 {
+				acc := 0
+				for _, r := range k.Recs[:idx] {
+					if r.Submitted && r.OK {
+						acc++
+					}
+				}
+				if got, want := k.InFlight(), min(acc, cfg.Conc); got != want {
+					det := fmt.Sprintf("%s: %d jobs executing at the gated quiescent point, %d accepted, limit %d: expected %d (pending=%d processing=%d)", cfg, got, acc, cfg.Conc, want, s.W.NumPending(), s.W.NumProcessing())
+					if got < want {
+						e.Fail("C03", "no-progress-at-quiescence", "batch", det)
+					} else {
+						e.Fail("C02", "more-in-flight-than-model", "batch", det)
+					}
+				}
+				e.ntFor("C03")
+			}
 			for bi, br := range runs {
 				want := 0
 				for i := br.lo; i < br.hi; i++ {
